@@ -185,12 +185,43 @@ class ExtMixin:
             if isinstance(v, (BitV, Lin)) or (isinstance(v, Sym) and v.ty in ("int", "bool")):
                 return R(v)
             if ty_of(v) == "float":
+                if isinstance(v, Sym) and (v.name in st.extra.get("affine", {}) or v.ty == "float"):
+                    # int(base * k + c): the truncated value remembers what it was computed from
+                    base, k, off, conv = st.extra.get("affine", {}).get(v.name, (v.name, 1.0, 0.0, ()))
+                    nm = st.fresh_name("affine")
+                    reg = dict(st.extra.get("affine", {}))
+                    reg[nm] = (base, k, off, conv + ("int",))
+                    st.extra["affine"] = reg
+                    return R(Sym(nm, "int", deps=frozenset(deps_of(v)) | {v.name}))
                 return R(Unknown(deps_of(v), ty="int"))
             if ty_of(v) not in ("int", "bool", "float"):
                 self.event(st, fr, "mayraise", node, ("int()", v))
             if isinstance(v, Sym):
                 # int(x) of a number-like parameter keeps the identity of x for region reasoning
                 return R(Sym(v.name, "int", **{k: w for k, w in v.attrs.items() if k in ("rng", "deps")}))
+            return R(Unknown(deps_of(v), ty="int"))
+        if name == "sum" and len(args) >= 1:
+            items = self.seq_items(args[0], st)
+            if items is not None:
+                acc = a[1] if len(a) > 1 else Const(0)
+                for it_ in items:
+                    acc = self.binop(ast.Add(), norm(acc), norm(it_), st, fr, node)
+                    if isinstance(acc, Raised):
+                        break
+                return R(acc)
+        if name == "round" and len(a) == 1:
+            v = a[0]
+            if isinstance(v, Const) and isinstance(v.v, (int, float)):
+                return R(Const(round(v.v)))
+            if isinstance(v, (BitV, Lin)) or (isinstance(v, Sym) and v.ty in ("int", "bool")):
+                return R(v)
+            if isinstance(v, Sym) and (v.name in st.extra.get("affine", {}) or v.ty == "float"):
+                base, k, off, conv = st.extra.get("affine", {}).get(v.name, (v.name, 1.0, 0.0, ()))
+                nm = st.fresh_name("affine")
+                reg = dict(st.extra.get("affine", {}))
+                reg[nm] = (base, k, off, conv + ("round",))
+                st.extra["affine"] = reg
+                return R(Sym(nm, "int", deps=frozenset(deps_of(v)) | {v.name}))
             return R(Unknown(deps_of(v), ty="int"))
         if name == "float":
             return R(Unknown(deps_of(a[0]) if a else (), ty="float"))
@@ -594,6 +625,16 @@ class ExtMixin:
             if attr == "pop":
                 self.event(st, fr, "pop", node, (base, a[0] if a else None, path_text(node.func.value)))
                 self.note_mutation(st, fr, node, base)
+                if base.kind == "dict" and a:
+                    cell.opaque = True
+                    if isinstance(a[0], Sym) and a[0].attrs.get("pairval") is not None and a[0].attrs.get("of_dict") == base.ident:
+                        return R(a[0].attrs["pairval"])        # a key obtained by iterating this dict is present: that entry's value
+                    if len(a) > 1:
+                        s2 = st.fork()
+                        self.budget()
+                        return [(st, Sym(st.fresh_name((base.label or "dict") + ".val"), "int", role=("dict-val", base.label or "dict", "pop"), key=a[0])), (s2, a[1])]
+                    self.event(st, fr, "mayraise", node, ("pop", base))
+                    return R(Sym(st.fresh_name((base.label or "dict") + ".val"), "int", role=("dict-val", base.label or "dict", "pop"), key=a[0]))
                 k = const_of(a[0]) if a else -1
                 if not cell.opaque and k is not None:
                     if -len(cell.items) <= k < len(cell.items):
